@@ -599,6 +599,15 @@ func (c *specCtx) call(x *ECall) sval {
 	case "allocated":
 		v := c.eval(x.Args[0])
 		return sval{term: "(<= " + v.term + " " + c.cur.alloc + ")", typ: tBool, sort: "Bool"}
+	case "fill":
+		// fill(arr, lo, hi, v): arr with indices [lo,hi) set to v (ghost arrays indexed by int)
+		a := c.eval(x.Args[0])
+		lo := c.eval(x.Args[1])
+		hi := c.eval(x.Args[2])
+		v := c.eval(x.Args[3])
+		n := fx.fresh("fill", a.sort)
+		fx.assume(fmt.Sprintf("(forall ((i Int)) (! (= (select %s i) (ite (and (<= %s i) (< i %s)) %s (select %s i))) :pattern ((select %s i))))", n, lo.term, hi.term, v.term, a.term, n))
+		return sval{term: n, typ: a.typ, sort: a.sort}
 	case "ref":
 		// ref(x): the address-as-integer of a pointer / the object identity
 		v := c.eval(x.Args[0])
